@@ -241,6 +241,8 @@ def cylinder(P1 : Vec, P2 : Vec, radius: float = 1., N=50, fill_caps=True) -> Su
     Returns:
         SurfaceMesh: a cylinder
     """
+    if N<3:
+        raise Exception("N should be >= 3 for a valid cylinder. Aborting")
     cy = RawMeshData()
     axis = Vec.normalized(P2-P1)
     t = Vec(axis.y, -axis.x, 0.) # tangent vector
